@@ -219,6 +219,28 @@ Section SerFail.
     - reflexivity.
   Qed.
 
+  (** the number of edges the cost function charges for bounds the number of edges returned *)
+  Theorem cost_bounds_page (a : app C E) edges S ar af bf :
+    app_ok C E ltb cur a edges S ->
+    args_rejected (a_first ar) (a_last ar) = false ->
+    decode_arg C decode (a_after ar) EInvalidAfter = Ok af ->
+    decode_arg C decode (a_before ar) EInvalidBefore = Ok bf ->
+    exists page pi t, serve a ar = RData page pi t /\ Z.of_nat (length page) <= max_edge_count ar.
+  Proof.
+    intros Happ Hrej Ha Hb.
+    destruct (serve_ok C E ltb cur ltb_irrefl ltb_trans ltb_total encode decode a edges S ar af bf Happ Hrej Ha Hb)
+      as [page [sp [Hserve [Hspec _]]]].
+    exists page, (Ok sp), (Ok (len S)). split; [exact Hserve|].
+    unfold max_edge_count. unfold spec_edges, slice_edges, args_rejected in *.
+    set (R := position_apply_cursors C E ltb cur S bf af) in *.
+    destruct (a_first ar) as [n|], (a_last ar) as [m|]; try discriminate.
+    - destruct (n <? 0) eqn:Hn; [discriminate|]. inversion Hspec; subst page.
+      unfold keep_first. destruct (Z.of_nat (length R) >? n) eqn:Hg; [|lia].
+      rewrite firstn_length. lia.
+    - destruct (m <? 0) eqn:Hm; [discriminate|]. inversion Hspec; subst page.
+      unfold keep_last. destruct (Z.of_nat (length R) >? m) eqn:Hg; [|lia].
+      rewrite rev_length, firstn_length. lia.
+  Qed.
 End SerFail.
 
 (** ** Direction *)
